@@ -236,8 +236,18 @@ def check_property(pid, tier="quick", seed=0, out=sys.stdout):
             rep["error"] = repr(e)
             crashes.append(f"bounded stand-in for {con.qualname} could not run: {e!r}")
         bounded_reports.append(rep)
-        if rep.get("n_failures"):
-            fname = os.path.join("replays", pid, "bounded_" + con.qualname.replace(":", "_").replace(".", "_") + ".json")
+        # known findings of a bounded stand-in are matched per failing input by its signature (never by count): a failure
+        # whose signature is not listed -- or a report that does not list every failure -- is a violation
+        fails = rep.get("failures") or []
+        kb = [f for f in known if f.get("bounded") == script]
+        listed_all = len(fails) == int(rep.get("n_failures") or 0)
+        unknown_fails = [x for x in fails if not (isinstance(x, dict) and any(k.get("signature") and k["signature"] == x.get("signature") for k in kb))]
+        for k in kb:
+            if any(isinstance(x, dict) and x.get("signature") == k.get("signature") for x in fails):
+                known_hits.append((k, None, ""))
+        if rep.get("n_failures") and (unknown_fails or not listed_all):
+            rep = dict(rep, failures=unknown_fails or fails)
+            fname = os.path.join("replays", pid, "bounded_" + con.qualname.replace(":", "_").replace(".", "_").replace("#", "_") + ".json")
             json.dump({"property": pid, "verdict": "bounded stand-in found a failing input (native run of the real function)", "function": con.qualname,
                        "replay": {"reproduced": True, "failing": rep.get("failures")}}, open(os.path.join(VERIF, fname), "w"), indent=1, default=str)
 
